@@ -25,7 +25,7 @@ CONSTANTS
 {consts}
   NMin = {nmin}
   NMax = {nmax}
-  Orders = {{2,4,6,8}}
+  Orders = {{2,4,6,8,3,10}}
   Emit = TRUE
 INVARIANT ExactlyNPoints
 INVARIANT Increasing
@@ -98,6 +98,9 @@ def check_object(run, fdmod, coremod, states):
         if getattr(fd, ax + "min") != param[ax + "min"]:
             ok = False
             vio("MinAttribute", ax, st, f"fd.{ax}min = {getattr(fd, ax + 'min')!r}")
+    if fd.fd_order != states[0]["eff"]:
+        ok = False
+        vio("EffectiveOrder", "-", states[0], f"fd_order requested {p}: the object reports fd_order = {fd.fd_order}, the schemes installed are of order {states[0]['eff']}")
     if fd.mask_len != states[0]["mask"]:
         ok = False
         vio("MaskLen", "-", states[0], f"mask_len = {fd.mask_len}, stencil half width is {states[0]['mask']}")
